@@ -1271,6 +1271,16 @@ class FnTr:
         if op == 'icmp':
             pred = p.next()[1]; t = p.type(); a = parse_value(p, t); p.expect(','); b = parse_value(p, t)
             d = s.setv(dest, TInt(1))
+            if PTRCMP and isinstance(E.resolve(t), TPtr) and pred in ('ugt', 'uge', 'ult', 'ule'):
+                # --ptrcmp: ordering comparison of a pointer with a small integer constant cast to a pointer (`uintptr_t(p) > 63`):
+                # emitted via VP_PTR_<pred>_C (PRELUDE), which states cbmc's own pointer encoding (object number in the top bits) in a
+                # form symex can fold for p = &object; natively it is the plain integer comparison
+                def smallc(v): return v.kind == 'cexpr' and v.op == 'inttoptr' and v.ops[0].kind == 'int' and 0 <= v.ops[0].val < 4096
+                flip = {'ugt': 'ult', 'uge': 'ule', 'ult': 'ugt', 'ule': 'uge'}
+                if smallc(b) or smallc(a):
+                    pv, cv, pr = (a, b, pred) if smallc(b) else (b, a, flip[pred])
+                    emit('%s = (u8)VP_PTR_%s_C(%s, %dull);' % (d, pr.upper(), E.val(pv), cv.ops[0].val))
+                    return
             emit('%s = %s;' % (d, E.icmp(pred, t, E.val(a), E.val(b))))
             return
         if op == 'fcmp':
@@ -1594,6 +1604,17 @@ static inline u64 vp_sb_load(struct vp_sb* b, void* a, u8 sz){ for(unsigned i=SB
 #define SB_STORE(p,v,sz) vp_sb_store(SB,(void*)(p),(v),(sz))
 #define SB_LOAD(p,sz) vp_sb_load(SB,(void*)(p),(sz))
 #define SB_FLUSH_ALL() vp_sb_flush(SB,SBD)
+#ifdef __CPROVER__
+#define VP_PTR_UGT_C(p,c) (__CPROVER_POINTER_OBJECT(p) != 0 || (u64)__CPROVER_POINTER_OFFSET(p) > (u64)(c))
+#define VP_PTR_UGE_C(p,c) (__CPROVER_POINTER_OBJECT(p) != 0 || (u64)__CPROVER_POINTER_OFFSET(p) >= (u64)(c))
+#define VP_PTR_ULT_C(p,c) (__CPROVER_POINTER_OBJECT(p) == 0 && (u64)__CPROVER_POINTER_OFFSET(p) < (u64)(c))
+#define VP_PTR_ULE_C(p,c) (__CPROVER_POINTER_OBJECT(p) == 0 && (u64)__CPROVER_POINTER_OFFSET(p) <= (u64)(c))
+#else
+#define VP_PTR_UGT_C(p,c) ((u64)(p) > (u64)(c))
+#define VP_PTR_UGE_C(p,c) ((u64)(p) >= (u64)(c))
+#define VP_PTR_ULT_C(p,c) ((u64)(p) < (u64)(c))
+#define VP_PTR_ULE_C(p,c) ((u64)(p) <= (u64)(c))
+#endif
 static inline u32 vp_bsr(u32 x){ return x ? 31u - (u32)__builtin_clz(x) : 0u; }
 static inline u64 vp_ctlz64(u64 x){ return x ? (u64)__builtin_clzll(x) : 64u; }
 static inline u32 vp_ctlz32(u32 x){ return x ? (u32)__builtin_clz(x) : 32u; }
@@ -1617,6 +1638,7 @@ LVALPATH = False   # --lvalpath: a load/store/cmpxchg/atomicrmw whose pointer op
                    # scalar pointer, e.g. atomic<T*> accessed as i64) is emitted on the field-path lvalue itself (`(*base).f0.a[i].f3 = x`, with a
                    # value cast for pointer<->i64 leaves) instead of `*ptr`: cbmc then sees a typed member/index expression even for a symbolic
                    # array index, where a pointer dereference degenerates into byte_update of the whole enclosing object at a symbolic offset
+PTRCMP = False     # --ptrcmp: `icmp u<pred> ptr, inttoptr(small const)` emitted through VP_PTR_<pred>_C (foldable by cbmc's symex), see inst()
 PTRHOOKS = False   # --ptrhooks: inttoptr/ptrtoint instructions go through harness functions u8* vp_i2p(u64) / u64 vp_p2i(u8*)
 def main():
     """usage: ir2c.py in.ll outbase [--tso] [--thread fn[:sfx1,sfx2,...]]...
@@ -1629,6 +1651,8 @@ def main():
     global M1PTR
     FALLTHROUGH = '--fallthrough' in args
     PTRHOOKS = '--ptrhooks' in args
+    global PTRCMP
+    PTRCMP = '--ptrcmp' in args
     LVALPATH = '--lvalpath' in args
     PURE[:] = [args[i + 1] for i, a in enumerate(args) if a == '--pure']
     IMMUT[:] = [args[i + 1] for i, a in enumerate(args) if a == '--immutable']
